@@ -173,7 +173,7 @@ theorem lossless_frame (w h p pred : Int) (c : Nat) (t : HuffTable) (scan : List
   obtain ⟨H, rfl⟩ : ∃ H : Nat, h = H := ⟨h.toNat, by omega⟩
   obtain ⟨P, rfl⟩ : ∃ P : Nat, p = P := ⟨p.toNat, by omega⟩
   obtain ⟨S, rfl⟩ : ∃ S : Nat, pred = S := ⟨pred.toNat, by omega⟩
-  have g1 : ¬ ((W : Int) ≤ 0 ∨ (H : Int) ≤ 0) := by omega
+  have g1 : ¬ ((W : Int) ≤ 0 ∨ (H : Int) ≤ 0 ∨ (W : Int) > 65535 ∨ (H : Int) > 65535) := by omega
   have g2 : ¬ (c ≠ 1 ∧ c ≠ 3) := by omega
   have g3 : ¬ ((P : Int) < 2 ∨ (P : Int) > 16) := by omega
   have g4 : ¬ ((S : Int) < 0 ∨ (S : Int) > 7) := by omega
@@ -261,7 +261,7 @@ theorem jpegls_frame (w h p near : Int) (c : Nat) (scan : List Nat)
   obtain ⟨N, rfl⟩ : ∃ N : Nat, near = N := ⟨near.toNat, by omega⟩
   simp only [Int.toNat_natCast] at hnear ⊢
   have hN : N ≤ 255 := by have := hnear.2; omega
-  have g1 : ¬ ((W : Int) ≤ 0 ∨ (H : Int) ≤ 0) := by omega
+  have g1 : ¬ ((W : Int) ≤ 0 ∨ (H : Int) ≤ 0 ∨ (W : Int) > 65535 ∨ (H : Int) > 65535) := by omega
   have g2 : ¬ (c ≠ 1 ∧ c ≠ 3) := by omega
   have g3 : ¬ ((P : Int) < 2 ∨ (P : Int) > 16) := by omega
   have g4 : ¬ ((N : Int) < 0 ∨ (N : Int) > 255) := by omega
@@ -342,7 +342,7 @@ theorem baseline_frame (w h : Int) (c : Nat) (t : BaseTables) (scan : List Nat)
   obtain ⟨W, rfl⟩ : ∃ W : Nat, w = W := ⟨w.toNat, by omega⟩
   obtain ⟨H, rfl⟩ : ∃ H : Nat, h = H := ⟨h.toNat, by omega⟩
   simp only [Int.toNat_natCast]
-  have g1 : ¬ ((W : Int) ≤ 0 ∨ (H : Int) ≤ 0) := by omega
+  have g1 : ¬ ((W : Int) ≤ 0 ∨ (H : Int) ≤ 0 ∨ (W : Int) > 65535 ∨ (H : Int) > 65535) := by omega
   have g2 : ¬ (c ≠ 1 ∧ c ≠ 3) := by omega
   have hfix : sofFixed 8 (H : Int) (W : Int) c = [8, H / 256, H % 256, W / 256, W % 256, c] := by
     simpa using sofFixed_nat 8 H W c (by omega) (by omega) (by omega) (by omega)
@@ -461,7 +461,7 @@ theorem ext12_frame (w h : Int) (q : List Int) (dc ac : HuffTable) (scan : List 
   obtain ⟨W, rfl⟩ : ∃ W : Nat, w = W := ⟨w.toNat, by omega⟩
   obtain ⟨H, rfl⟩ : ∃ H : Nat, h = H := ⟨h.toNat, by omega⟩
   simp only [Int.toNat_natCast]
-  have g1 : ¬ ((W : Int) ≤ 0 ∨ (H : Int) ≤ 0) := by omega
+  have g1 : ¬ ((W : Int) ≤ 0 ∨ (H : Int) ≤ 0 ∨ (W : Int) > 65535 ∨ (H : Int) > 65535) := by omega
   have hb : [12, byteOf (Go.shr (H : Int) 8), byteOf (H : Int), byteOf (Go.shr (W : Int) 8), byteOf (W : Int), 1, 1, 0x11, 0]
       = [12, H / 256, H % 256, W / 256, W % 256, 1, 1, 0x11, 0] := by
     simp only [shr8_natCast, byteOf_natCast]
